@@ -293,19 +293,14 @@ func (p *pinner) doPinRecursive(ctx context.Context, c cid.Cid, fetch bool, name
 	p.lock.Lock()
 	defer p.lock.Unlock()
 
-	found, err := p.cidRIndex.HasAny(ctx, cidKey)
+	// Do not return immediately if the CID is already pinned recursively! The
+	// pin is re-added with the new name and replaces the existing one. The
+	// existing pin is only removed after the new pin has been stored (see
+	// below), so that a failed fetch, or a crash in between, does not leave the
+	// CID unpinned.
+	pinnedBefore, err := p.cidRIndex.HasAny(ctx, cidKey)
 	if err != nil {
 		return err
-	}
-	// Do not return immediately! Just remove the recursive pins for the current CID.
-	// This allows the process to continue and the pin to be re-added with a new name.
-	//
-	// TODO: remove this to support multiple pins per CID
-	if found {
-		_, err = p.removePinsForCid(ctx, c, ipfspinner.Recursive)
-		if err != nil {
-			return err
-		}
 	}
 
 	dirtyBefore := p.dirty
@@ -332,7 +327,7 @@ func (p *pinner) doPinRecursive(ctx context.Context, c cid.Cid, fetch bool, name
 	}
 
 	// Only look again if something has changed.
-	if p.dirty != dirtyBefore {
+	if p.dirty != dirtyBefore && !pinnedBefore {
 		found, err := p.cidRIndex.HasAny(ctx, cidKey)
 		if err != nil {
 			return err
@@ -342,19 +337,16 @@ func (p *pinner) doPinRecursive(ctx context.Context, c cid.Cid, fetch bool, name
 		}
 	}
 
-	// TODO: remove this to support multiple pins per CID
-	found, err = p.cidDIndex.HasAny(ctx, cidKey)
+	pinID, err := p.addPin(ctx, c, ipfspinner.Recursive, name)
 	if err != nil {
 		return err
 	}
-	if found {
-		_, err = p.removePinsForCid(ctx, c, ipfspinner.Direct)
-		if err != nil {
-			return err
-		}
-	}
 
-	_, err = p.addPin(ctx, c, ipfspinner.Recursive, name)
+	// Now remove the pins that the new pin replaces: any other recursive pin
+	// and any direct pin of this CID.
+	//
+	// TODO: remove this to support multiple pins per CID
+	_, err = p.removePinsForCidExcept(ctx, c, ipfspinner.Any, pinID)
 	if err != nil {
 		return err
 	}
@@ -388,23 +380,18 @@ func (p *pinner) doPinDirect(ctx context.Context, c cid.Cid, name string) error 
 		return fmt.Errorf("%s already pinned recursively", c.String())
 	}
 
-	// Remove existing direct pins for this CID. This ensures that the pin will be
-	// re-saved with the new name and that there aren't clashing pins for the same
-	// CID.
-	//
-	// TODO: remove this to support multiple pins per CID.
-	found, err = p.cidDIndex.HasAny(ctx, cidKey)
+	pinID, err := p.addPin(ctx, c, ipfspinner.Direct, name)
 	if err != nil {
 		return err
 	}
-	if found {
-		_, err = p.removePinsForCid(ctx, c, ipfspinner.Direct)
-		if err != nil {
-			return err
-		}
-	}
 
-	_, err = p.addPin(ctx, c, ipfspinner.Direct, name)
+	// Remove the other direct pins for this CID. This ensures that the pin is
+	// re-saved with the new name and that there aren't clashing pins for the
+	// same CID. They are removed after the new pin has been stored so that a
+	// failure or a crash in between does not leave the CID unpinned.
+	//
+	// TODO: remove this to support multiple pins per CID.
+	_, err = p.removePinsForCidExcept(ctx, c, ipfspinner.Direct, pinID)
 	if err != nil {
 		return err
 	}
@@ -911,6 +898,12 @@ func (p *pinner) checkIndirectPins(ctx context.Context, cids ...cid.Cid) ([]ipfs
 // Returns true if any pins, and all corresponding CID index entries, were
 // removed.  Otherwise, returns false.
 func (p *pinner) removePinsForCid(ctx context.Context, c cid.Cid, mode ipfspinner.Mode) (bool, error) {
+	return p.removePinsForCidExcept(ctx, c, mode, "")
+}
+
+// removePinsForCidExcept is like removePinsForCid but keeps the pin with the
+// given ID.
+func (p *pinner) removePinsForCidExcept(ctx context.Context, c cid.Cid, mode ipfspinner.Mode, keepID string) (bool, error) {
 	// Search for pins by CID
 	var ids []string
 	var err error
@@ -941,12 +934,35 @@ func (p *pinner) removePinsForCid(ctx context.Context, c cid.Cid, mode ipfspinne
 
 	// Remove the pin with the requested mode
 	for _, pid := range ids {
+		if keepID != "" && pid == keepID {
+			continue
+		}
 		var pp *pin
 		pp, err = p.loadPin(ctx, pid)
 		if err != nil {
 			if errors.Is(err, ds.ErrNotFound) {
 				p.setDirty(ctx)
 				// Fix index; remove index for pin that does not exist
+				if keepID != "" {
+					// Only drop the entry of the missing pin, so that the
+					// entry of the pin to keep survives.
+					if mode == ipfspinner.Recursive || mode == ipfspinner.Any {
+						if err = p.cidRIndex.Delete(ctx, cidKey, pid); err != nil {
+							return false, fmt.Errorf("error deleting index: %s", err)
+						}
+					}
+					if mode == ipfspinner.Direct || mode == ipfspinner.Any {
+						if err = p.cidDIndex.Delete(ctx, cidKey, pid); err != nil {
+							return false, fmt.Errorf("error deleting index: %s", err)
+						}
+					}
+					if err = p.flushPins(ctx, true); err != nil {
+						return false, err
+					}
+					removed = true
+					log.Error("found CID index with missing pin")
+					continue
+				}
 				switch mode {
 				case ipfspinner.Recursive:
 					_, err = p.cidRIndex.DeleteKey(ctx, cidKey)
